@@ -16,6 +16,8 @@ CLAIMED = {
          "MIR-driver rules: effect who-may-call with positive controls, interprocedural path-root dataflow, CLI-to-Config dataflow table"),
  "C13": ("other", "Sibling-table agreement over the 19 variants of the `any` carrier: serializer->variant, variant->re-serialize, visitor->variant, variant->replay, compound end(), each extracted from MIR and compared with one canonical table; trait-surface completeness (the i128/u128 class); coercion constants and per-type key parsing rows; Option handling. The inverse law for all values is not decided.", "4/C13",
          "MIR-driver rules: decision tables from discriminant switches and aggregates, trait-surface completeness, sibling agreement"),
+ "C16": ("other", "Construction-site confinement with guard dominance for both types workspace-wide; recognisers shown equal to the specification's languages (token byte class from the compiler-evaluated table; rid regex literal language-equivalent to the specification regex by DFA product, group by group); validator acceptance shape; from_components dot pre-checks; routes and renderings. Regex-crate semantics trusted.", "4/C16",
+         "MIR-driver rules: construction-site enumeration + guard dominance, evaluated static table, regex->DFA language equivalence"),
 }
 NA = {
  "C11": "Content negotiation quantifies over parsed header lists and numeric q-values; its truth lives in comparator outcomes, not in the shape of the code. The structural clauses in reach are decided under C06/C04; a mirror of this implementation's iterator chain would be a brittle proxy (DESIGN.md section 4/C11).",
